@@ -16,34 +16,36 @@ Lemma qadj_cons e t u v :
 Proof. reflexivity. Qed.
 
 (* ---- matrices -> edge lists ---- *)
-Lemma qadj_row_other V M u' u v : u' <> u -> (qadj (mat_row V M u') u v == 0)%Q.
+Lemma qadj_row_other V keep M u' u v : u' <> u -> (qadj (pmat_row V keep M u') u v == 0)%Q.
 Proof.
-  intros Hne. unfold mat_row. generalize (seq 0 V) as l.
+  intros Hne. unfold pmat_row. generalize (seq 0 V) as l.
   induction l as [|x l IH]; simpl; [lra|].
-  destruct (Qeq_bool (M u' x) 0); simpl; auto.
+  destruct (keep u' x); simpl; auto.
   unfold qsrc at 1; simpl. destruct (Nat.eqb_spec u' u) as [E|_]; [contradiction|]. simpl. exact IH.
 Qed.
 
-Lemma qadj_row_seq M u v a n :
-  Qeq (qadj (flat_map (fun x => if Qeq_bool (M u x) 0 then [] else [(u, x, M u x)]) (seq a n)) u v)
-      (if (a <=? v) && (v <? a + n) then M u v else 0%Q).
+Lemma qadj_row_seq (keep : nat -> nat -> bool) (M : nat -> nat -> Q) u v a n :
+  Qeq (qadj (flat_map (fun x => if keep u x then [(u, x, M u x)] else []) (seq a n)) u v)
+      (if (a <=? v) && (v <? a + n) && keep u v then M u v else 0%Q).
 Proof.
   revert a; induction n as [|n IH]; intros a; simpl.
   - destruct (a <=? v) eqn:H1; destruct (v <? a + 0) eqn:H2; simpl; try lra.
     apply Nat.leb_le in H1. apply Nat.ltb_lt in H2. lia.
   - rewrite qadj_app. rewrite IH.
-    assert (Hhead : (qadj (if Qeq_bool (M u a) 0 then [] else [(u, a, M u a)]) u v
-                     == if Nat.eqb a v then M u a else 0)%Q).
-    { destruct (Qeq_bool (M u a) 0) eqn:Hz; simpl.
-      - apply Qeq_bool_iff in Hz. destruct (Nat.eqb a v); lra.
-      - unfold qsrc, qdst, qw; simpl. rewrite Nat.eqb_refl. simpl. destruct (Nat.eqb a v); lra. }
+    assert (Hhead : (qadj (if keep u a then [(u, a, M u a)] else []) u v
+                     == if Nat.eqb a v && keep u a then M u a else 0)%Q).
+    { destruct (keep u a) eqn:Hz; simpl.
+      - unfold qsrc, qdst, qw; simpl. rewrite Nat.eqb_refl. simpl. destruct (Nat.eqb a v); simpl; lra.
+      - rewrite andb_false_r. lra. }
     rewrite Hhead.
     destruct (Nat.eqb_spec a v) as [Hav|Hne].
     + subst a. replace (S v <=? v) with false by (symmetry; apply Nat.leb_gt; lia).
       replace (v <=? v) with true by (symmetry; apply Nat.leb_le; lia).
-      replace (v <? v + S n) with true by (symmetry; apply Nat.ltb_lt; lia). simpl. lra.
+      replace (v <? v + S n) with true by (symmetry; apply Nat.ltb_lt; lia). simpl.
+      destruct (keep u v); lra.
     + destruct (a <=? v) eqn:H1; destruct (S a <=? v) eqn:H2;
         destruct (v <? S a + n) eqn:H3; destruct (v <? a + S n) eqn:H4; simpl; try lra;
+        try (destruct (keep u v); lra);
         repeat match goal with
                | H : (_ <=? _) = true |- _ => apply Nat.leb_le in H
                | H : (_ <=? _) = false |- _ => apply Nat.leb_gt in H
@@ -52,8 +54,8 @@ Proof.
                end; lia.
 Qed.
 
-Lemma qadj_mat_rows V M u v l :
-  NoDup l -> (qadj (flat_map (mat_row V M) l) u v == if existsb (Nat.eqb u) l then qadj (mat_row V M u) u v else 0)%Q.
+Lemma qadj_mat_rows V keep M u v l :
+  NoDup l -> (qadj (flat_map (pmat_row V keep M) l) u v == if existsb (Nat.eqb u) l then qadj (pmat_row V keep M u) u v else 0)%Q.
 Proof.
   induction l as [|x l IH]; intros Hnd; simpl; [lra|].
   inversion Hnd as [|x' l' Hnotin Hnd']; subst.
@@ -63,30 +65,84 @@ Proof.
     { destruct (existsb (Nat.eqb x) l) eqn:Hx; auto.
       apply existsb_exists in Hx. destruct Hx as [y [Hy Hxy]]. apply Nat.eqb_eq in Hxy. subst y. contradiction. }
     rewrite Hf. lra.
-  - rewrite (qadj_row_other V M x u v) by auto. lra.
+  - rewrite (qadj_row_other V keep M x u v) by auto. lra.
+Qed.
+
+Lemma qadj_pmat_edges V keep M u v : u < V -> v < V ->
+  (qadj (pmat_edges V keep M) u v == if keep u v then M u v else 0)%Q.
+Proof.
+  intros Hu Hv. unfold pmat_edges. rewrite qadj_mat_rows by apply seq_NoDup.
+  assert (Hin : existsb (Nat.eqb u) (seq 0 V) = true).
+  { apply existsb_exists. exists u. split; [apply in_seq; lia|apply Nat.eqb_refl]. }
+  rewrite Hin. unfold pmat_row. rewrite qadj_row_seq.
+  replace (0 <=? v) with true by (symmetry; apply Nat.leb_le; lia).
+  replace (v <? 0 + V) with true by (symmetry; apply Nat.ltb_lt; lia). simpl. destruct (keep u v); lra.
 Qed.
 
 Lemma qadj_mat_edges V M u v : u < V -> v < V -> (qadj (mat_edges V M) u v == M u v)%Q.
 Proof.
-  intros Hu Hv. unfold mat_edges. rewrite qadj_mat_rows by apply seq_NoDup.
-  assert (Hin : existsb (Nat.eqb u) (seq 0 V) = true).
-  { apply existsb_exists. exists u. split; [apply in_seq; lia|apply Nat.eqb_refl]. }
-  rewrite Hin. unfold mat_row. rewrite qadj_row_seq.
-  replace (0 <=? v) with true by (symmetry; apply Nat.leb_le; lia).
-  replace (v <? 0 + V) with true by (symmetry; apply Nat.ltb_lt; lia). simpl. lra.
+  intros Hu Hv. unfold mat_edges. rewrite qadj_pmat_edges by assumption.
+  destruct (Qeq_bool (M u v) 0) eqn:Hz; simpl; [|lra].
+  apply Qeq_bool_iff in Hz. lra.
 Qed.
 
-(* the result lists every vertex pair at most once and stores no zero *)
-Lemma mat_edges_entries V M e :
-  In e (mat_edges V M) -> qsrc e < V /\ qdst e < V /\ qw e = M (qsrc e) (qdst e) /\ ~ (qw e == 0)%Q.
+(* every stored entry is in range, is kept, and carries the matrix entry *)
+Lemma pmat_edges_entries V keep M e :
+  In e (pmat_edges V keep M) -> qsrc e < V /\ qdst e < V /\ qw e = M (qsrc e) (qdst e) /\ keep (qsrc e) (qdst e) = true.
 Proof.
-  unfold mat_edges, mat_row. intros H.
+  unfold pmat_edges, pmat_row. intros H.
   apply in_flat_map in H. destruct H as [u [Hu H]].
   apply in_flat_map in H. destruct H as [v [Hv H]].
   apply in_seq in Hu. apply in_seq in Hv.
-  destruct (Qeq_bool (M u v) 0) eqn:Hz; [destruct H|].
-  destruct H as [<-|[]]. unfold qsrc, qdst, qw; simpl. repeat split; try lia.
-  intros Hq. apply Qeq_bool_iff in Hq. congruence.
+  destruct (keep u v) eqn:Hz; [|destruct H].
+  destruct H as [<-|[]]. unfold qsrc, qdst, qw; simpl. repeat split; try lia. exact Hz.
+Qed.
+
+Lemma mat_edges_entries V M e :
+  In e (mat_edges V M) -> qsrc e < V /\ qdst e < V /\ qw e = M (qsrc e) (qdst e) /\ ~ (qw e == 0)%Q.
+Proof.
+  intros H. apply pmat_edges_entries in H. destruct H as [H1 [H2 [H3 H4]]]. repeat split; auto.
+  intros Hq. rewrite H3 in Hq. apply Qeq_bool_iff in Hq. rewrite Hq in H4. discriminate.
+Qed.
+
+(* a vertex pair that does not occur in the edge list has adjacency 0 *)
+Lemma qadj_no_edge E u v : has_edge E u v = false -> (qadj E u v == 0)%Q.
+Proof.
+  unfold has_edge. induction E as [|e t IH]; simpl; intros H; [lra|].
+  apply orb_false_iff in H. destruct H as [H1 H2]. rewrite H1. auto.
+Qed.
+
+Lemma qadj_cut_redundancies V E u v : u < V -> v < V -> (qadj (cut_redundancies_model V E) u v == qadj E u v)%Q.
+Proof.
+  intros Hu Hv. unfold cut_redundancies_model. rewrite qadj_pmat_edges by assumption.
+  destruct (has_edge E u v) eqn:Hh; [apply Qred_correct|]. rewrite (qadj_no_edge E u v Hh). lra.
+Qed.
+
+(* ---- normalize(0), normalize(1) ---- *)
+Lemma qadj_scale_src (f : nat -> Q) E u v :
+  (qadj (map (fun e => (qsrc e, qdst e, Qred (qw e / f (qsrc e))%Q)) E) u v == qadj E u v / f u)%Q.
+Proof.
+  induction E as [|e t IH]; [simpl; unfold Qdiv; lra|].
+  cbn [map]. rewrite !qadj_cons.
+  change (qsrc (qsrc e, qdst e, Qred (qw e / f (qsrc e)))) with (qsrc e).
+  change (qdst (qsrc e, qdst e, Qred (qw e / f (qsrc e)))) with (qdst e).
+  change (qw (qsrc e, qdst e, Qred (qw e / f (qsrc e)))) with (Qred (qw e / f (qsrc e))).
+  destruct (Nat.eqb_spec (qsrc e) u) as [E1|_]; cbn [andb]; [|exact IH].
+  destruct (Nat.eqb (qdst e) v); [|exact IH].
+  rewrite IH, Qred_correct, E1. unfold Qdiv. lra.
+Qed.
+
+Lemma qadj_scale_dst (f : nat -> Q) E u v :
+  (qadj (map (fun e => (qsrc e, qdst e, Qred (qw e / f (qdst e))%Q)) E) u v == qadj E u v / f v)%Q.
+Proof.
+  induction E as [|e t IH]; [simpl; unfold Qdiv; lra|].
+  cbn [map]. rewrite !qadj_cons.
+  change (qsrc (qsrc e, qdst e, Qred (qw e / f (qdst e)))) with (qsrc e).
+  change (qdst (qsrc e, qdst e, Qred (qw e / f (qdst e)))) with (qdst e).
+  change (qw (qsrc e, qdst e, Qred (qw e / f (qdst e)))) with (Qred (qw e / f (qdst e))).
+  destruct (Nat.eqb (qsrc e) u); cbn [andb]; [|exact IH].
+  destruct (Nat.eqb_spec (qdst e) v) as [E1|_]; [|exact IH].
+  rewrite IH, Qred_correct, E1. unfold Qdiv. lra.
 Qed.
 
 (* ---- remove_trivial_edges ---- *)
